@@ -80,6 +80,10 @@ pub enum Ev {
     },
     /// configuration sample: where = "microstep" | "idle" | "final"
     Config(String, Vec<u32>),
+    /// state of the session's own bookkeeping at the moment it is about to block on its external queue
+    /// (sampled by the tracer on the session thread through the Verif_Hooks accessor):
+    /// events still in the internal queue, states whose invokes are still pending
+    AtIdle { internal_queue: usize, states_to_invoke: usize },
     Trace(String),
 }
 
@@ -111,6 +115,7 @@ impl Entry {
                 session
             ),
             Ev::Config(w, c) => format!("CONFIG@{} {:?}", w, c),
+            Ev::AtIdle { internal_queue, states_to_invoke } => format!("ATIDLE iq={} toinvoke={}", internal_queue, states_to_invoke),
             Ev::Trace(t) => format!("TRACE {}", t),
         };
         format!("[t{} #{}] {}", self.tid, self.tracer, body)
@@ -344,6 +349,39 @@ impl Tracer for RecTracer {
                         Ok((g, _)) => g,
                         Err(p) => p.into_inner().0,
                     };
+                }
+            }
+        }
+        if what == "externalQueue.dequeue" {
+            // invariant hook at the quiescent point: the session thread holds none of its locks here
+            let arc = {
+                let w = lock();
+                if w.epoch == self.epoch {
+                    w.globals.get(&self.id).cloned()
+                } else {
+                    None
+                }
+            };
+            if let Some(a) = arc {
+                // try_lock: another thread (a timer, a sender) may hold the lock for a moment; never block here
+                let mut got = None;
+                for _ in 0..200 {
+                    match a.try_lock() {
+                        Ok(g) => {
+                            got = Some((g.verif_internal_queue_len(), g.statesToInvoke.size()));
+                            break;
+                        }
+                        Err(std::sync::TryLockError::Poisoned(p)) => {
+                            let g = p.into_inner();
+                            got = Some((g.verif_internal_queue_len(), g.statesToInvoke.size()));
+                            break;
+                        }
+                        Err(std::sync::TryLockError::WouldBlock) => std::thread::yield_now(),
+                    }
+                }
+                match got {
+                    Some((iq, ti)) => push(self.epoch, self.id, Ev::AtIdle { internal_queue: iq, states_to_invoke: ti }),
+                    None => push(self.epoch, self.id, Ev::Trace("atidle-sample-skipped".into())),
                 }
             }
         }
